@@ -811,4 +811,109 @@ Proof.
                   ltac:(apply (Sim_start_l a0 a2 b2 t); [apply (Sim_start_r a0 b0 b2 t S0 Ect StB)|exact Hma|exact StA]) XA XB) as [-> S33].
       split; [reflexivity|]. apply (Sim_fin a3 b3 _ _ t ob S33); apply Fin_exec_end.
 Qed.
+
+(* ---- sessions and histories ---- *)
+Variable always : ocid.
+
+Lemma sim_req_top f f' a b t c oa a' ob b' :
+  StoreOK a -> Inv2 a -> KK a -> StoreOK b -> Inv2 b -> FreshW b -> Sim a b -> cur a = None -> cur b = None ->
+  require_with OC (mc f) a t c = Done oa a' -> require_with OC (mc f') b t c = Done ob b' -> oa = ob /\ Sim a' b'.
+Proof.
+  intros Ha Ja Ka Hb Jb Fb Sab Hca Hcb EA EB. unfold require_with in EA, EB.
+  set (a2 := get_or_create_task_node (emit a (ERequireStart t c)) t) in *.
+  set (b2 := get_or_create_task_node (emit b (ERequireStart t c)) t) in *.
+  assert (Sa2 : Same a a2) by (eapply Same_trans; [apply (Same_struct a (emit a (ERequireStart t c))); reflexivity|apply Same_goc_task]).
+  assert (Sb2 : Same b b2) by (eapply Same_trans; [apply (Same_struct b (emit b (ERequireStart t c))); reflexivity|apply Same_goc_task]).
+  assert (Hca2 : cur a2 = None) by (unfold a2, get_or_create_task_node; destruct (live _ _); exact Hca).
+  assert (Hcb2 : cur b2 = None) by (unfold b2, get_or_create_task_node; destruct (live _ _); exact Hcb).
+  unfold reserve_require_dependency in EA, EB. rewrite Hca2 in EA. rewrite Hcb2 in EB. cbn [bind] in EA, EB.
+  assert (PA2 : Post [] [] [] a a2 ([ERequireStart t c] ++ [])) by (eapply post_seq; [apply post_emit; [exact Ha|exact I]|apply goc_task_post; exact Ha]).
+  assert (PB2 : Post [] [] [] b b2 ([ERequireStart t c] ++ [])) by (eapply post_seq; [apply post_emit; [exact Hb|exact I]|apply goc_task_post; exact Hb]).
+  destruct (mc f a2 t) as [o4 a4|k a4|] eqn:MA; cbn [bind] in EA; try discriminate.
+  destruct (mc f' b2 t) as [o4' b4|k b4|] eqn:MB; cbn [bind] in EB; try discriminate.
+  destruct (sim_mc f f' a2 b2 t [] [] o4 a4 o4' b4 (po_ok _ _ _ _ _ _ PA2) (po_inv _ _ _ _ _ _ PA2 Ja)
+              ltac:(apply K_goc_task; apply (K_same RC OC P sf a); [reflexivity|reflexivity|exact Ka])
+              (po_ok _ _ _ _ _ _ PB2) (po_inv _ _ _ _ _ _ PB2 Jb) (FreshW_same b b2 Sb2 Fb)
+              ltac:(apply (Sim_same_l a); [exact Sa2|]; apply (Sim_same_r a b); [exact Sb2|exact Sab])
+              (chain_nil a2) (chain_nil b2) I I MA MB) as [Eo S4].
+  destruct (mc_facts f a2 t [] o4 a4 (po_ok _ _ _ _ _ _ PA2) (po_inv _ _ _ _ _ _ PA2 Ja) (chain_nil a2) I MA) as [_ [HcA4 _]].
+  destruct (mc_facts f' b2 t [] o4' b4 (po_ok _ _ _ _ _ _ PB2) (po_inv _ _ _ _ _ _ PB2 Jb) (chain_nil b2) I MB) as [_ [HcB4 _]].
+  unfold update_require_dependency in EA, EB.
+  change (cur (emit a4 (ERequireEnd t c (oc_stamp (OC c) o4) o4))) with (cur a4) in EA. rewrite HcA4, Hca2 in EA.
+  change (cur (emit b4 (ERequireEnd t c (oc_stamp (OC c) o4') o4'))) with (cur b4) in EB. rewrite HcB4, Hcb2 in EB.
+  cbn [bind] in EA, EB. inversion EA; subst oa a'. inversion EB; subst ob b'. split; [exact Eo|].
+  apply (Sim_same_l a4); [apply Same_struct; reflexivity|]. apply (Sim_same_r a4 b4); [apply Same_struct; reflexivity|exact S4].
+Qed.
+
+Lemma sim_session_require f f' a b t oa a' ob b' :
+  J a -> KK a -> J b -> FreshW b -> Sim a b ->
+  session_require RC OC P always f a t = Done oa a' -> session_require RC OC P always f' b t = Done ob b' ->
+  oa = ob /\ Sim a' b'.
+Proof.
+  intros [Ha Ja] Ka [Hb Jb] Fb Sab EA EB. unfold session_require, require_td in EA, EB.
+  destruct (require_with OC (mc f) (emit (set_cur a None) EBuildStart) t always) as [o1 a1|k a1|] eqn:RA; cbn [bind] in EA; try discriminate.
+  destruct (require_with OC (mc f') (emit (set_cur b None) EBuildStart) t always) as [o1' b1|k b1|] eqn:RB; cbn [bind] in EB; try discriminate.
+  inversion EA; subst oa a'. inversion EB; subst ob b'.
+  destruct (sim_req_top f f' (emit (set_cur a None) EBuildStart) (emit (set_cur b None) EBuildStart) t always o1 a1 o1' b1 Ha Ja
+              ltac:(apply (K_same RC OC P sf a); [reflexivity|reflexivity|exact Ka]) Hb Jb
+              ltac:(apply (FreshW_same b); [apply Same_struct; reflexivity|exact Fb])
+              ltac:(apply (Sim_same_l a); [apply Same_struct; reflexivity|]; apply (Sim_same_r a b); [apply Same_struct; reflexivity|exact Sab])
+              eq_refl eq_refl RA RB) as [Eo S1].
+  split; [exact Eo|]. apply (Sim_same_l a1); [apply Same_struct; reflexivity|]. apply (Sim_same_r a1 b1); [apply Same_struct; reflexivity|exact S1].
+Qed.
+
+Definition is_done (r : sres) : Prop := exists x, r = RDone x.
+
+Lemma session_fresh f b t o b' : J b -> FreshW b -> session_require RC OC P always f b t = Done o b' -> FreshW b'.
+Proof.
+  intros [Hb Jb] Fb Eq. pose proof (session_require_spec RC OC P always f b t Hb Jb) as SP. rewrite Eq in SP.
+  destruct SP as [[seg P1] _]. eapply post_fresh; eassumption.
+Qed.
+
+Theorem sim_session f f' ops : forall a b, td_only ops -> J a -> KK a -> J b -> FreshW b -> Sim a b ->
+  Forall is_done (fst (run_session RC OC P always f a ops)) -> Forall is_done (fst (run_session RC OC P always f' b ops)) ->
+  fst (run_session RC OC P always f a ops) = fst (run_session RC OC P always f' b ops) /\
+  Sim (snd (run_session RC OC P always f a ops)) (snd (run_session RC OC P always f' b ops)).
+Proof.
+  induction ops as [|o tl IH]; intros a b TD Ja Ka Jb Fb Sab DA DB; cbn [run_session] in *; [split; [reflexivity|exact Sab]|].
+  destruct o as [t|ch]; [|destruct TD]. cbn [td_only] in TD. cbn [run_sop] in *.
+  pose proof (session_require_execs RC OC P always f a t Ja) as EA. pose proof (session_require_K RC OC P sf HS HNR always f a t (proj1 Ja) (proj2 Ja) Ka) as KA.
+  pose proof (session_require_execs RC OC P always f' b t Jb) as EB.
+  destruct (session_require RC OC P always f a t) as [xa a1|ka a1|] eqn:SA; cbn [fst snd] in *.
+  2:{ inversion DA as [|r0 l0 [x X] _]; discriminate. } 2:{ inversion DA as [|r0 l0 [x X] _]; discriminate. }
+  destruct (session_require RC OC P always f' b t) as [xb b1|kb b1|] eqn:SB; cbn [fst snd] in *.
+  2:{ destruct (run_session RC OC P always f a1 tl); inversion DB as [|r0 l0 [x X] _]; discriminate. }
+  2:{ destruct (run_session RC OC P always f a1 tl); inversion DB as [|r0 l0 [x X] _]; discriminate. }
+  destruct (sim_session_require f f' a b t xa a1 xb b1 Ja Ka Jb Fb Sab SA SB) as [-> S1].
+  destruct EA as [Ja1 _]. destruct EB as [Jb1 _]. cbn [outK] in KA.
+  specialize (IH a1 b1 TD Ja1 KA Jb1 (session_fresh f' b t xb b1 Jb Fb SB) S1).
+  destruct (run_session RC OC P always f a1 tl) as [rsa a2]. destruct (run_session RC OC P always f' b1 tl) as [rsb b2]. cbn [fst snd] in *.
+  inversion DA; subst. inversion DB; subst. destruct (IH ltac:(assumption) ltac:(assumption)) as [E S2]. split; [rewrite E; reflexivity|exact S2].
+Qed.
+
+(* the same resources in a store that has never built anything *)
+Definition fresh_of (w : world) : world := mkWorld empty [] (rstate w) (env w) None [] [] [] [].
+
+(* C01: after ANY history of top-down sessions and external changes (including aborted builds), a session of requires that
+   returns yields the outputs, and leaves the resource contents, that the same session yields on a fresh store holding the
+   same resources -- provided the from-scratch session returns as well *)
+Theorem incremental_equals_scratch fuel fuel0 h ops :
+  td_hist h -> td_only ops ->
+  ~ Exists (Exists bug4) (fst (run_history RC OC P always fuel init_world h)) ->
+  let w := snd (run_history RC OC P always fuel init_world h) in
+  let ra := run_session RC OC P always fuel (new_session w) ops in
+  let rb := run_session RC OC P always fuel0 (new_session (fresh_of w)) ops in
+  Forall is_done (fst ra) -> Forall is_done (fst rb) ->
+  fst ra = fst rb /\ forall r, get_content (snd ra) r = get_content (snd rb) r.
+Proof.
+  intros TH TO NB w ra rb DA DB.
+  destruct (history_td_JK RC OC P sf HS HNR always fuel h init_world TH J_init (K_init RC OC P sf)) as [X|[Jw Kw]]; [contradiction|]. fold w in Jw, Kw.
+  assert (Jf : J (new_session (fresh_of w))) by (split; [exact GOK_empty|split; [intros t d X; discriminate|intros t X; discriminate]]).
+  assert (Ff : FreshW (new_session (fresh_of w))) by (intros x _; reflexivity).
+  assert (S0 : Sim (new_session w) (new_session (fresh_of w))).
+  { constructor; [reflexivity|reflexivity|reflexivity|intros x X; discriminate]. }
+  destruct (sim_session fuel fuel0 ops (new_session w) (new_session (fresh_of w)) TO (J_new_session w Jw)
+              ltac:(apply (K_same RC OC P sf w); [reflexivity|reflexivity|exact Kw]) Jf Ff S0 DA DB) as [E S1].
+  split; [exact E|]. intros r. apply (sim_content _ _ S1).
+Qed.
 End Sm.
